@@ -158,7 +158,7 @@ impl Property for C14 {
 
     fn cases(tier: Tier) -> u32 {
         match tier {
-            Tier::Quick => 800,
+            Tier::Quick => 3200,
             Tier::Thorough => 100000,
         }
     }
